@@ -98,6 +98,96 @@ def _inline_one(caller, bi, callee, tag):
         cm["blocks"].append(nb)
 
 
+def _closure_of_operand(j, types, op, depth=0):
+    """(closure path, is_ref) of an operand holding a closure (or a reference to one), following moves of whole locals."""
+    pl = op.get("move") or op.get("copy")
+    if pl is None or depth > 6:
+        return None
+    t = types[pl["ty"]] if isinstance(pl.get("ty"), int) else {}
+    if t.get("k") == "closure":
+        return t.get("path"), False
+    if t.get("k") == "ref" and types[t["to"]].get("k") == "closure":
+        return types[t["to"]].get("path"), True
+    if pl["p"]:
+        return None
+    # a generic parameter (`F`) inside an inlined helper: look at what was assigned to the local
+    found = None
+    for b in j["mir"]["blocks"]:
+        for st in b.get("stmts", []):
+            if st.get("k") == "assign" and st["place"]["l"] == pl["l"] and not st["place"]["p"]:
+                rv = st["rv"]
+                r = None
+                if rv["k"] == "use":
+                    r = _closure_of_operand(j, types, rv["op"], depth + 1)
+                elif rv["k"] == "ref":
+                    pt = types[rv["place"]["ty"]] if isinstance(rv["place"].get("ty"), int) else {}
+                    if pt.get("k") == "closure":
+                        r = (pt.get("path"), True)
+                elif rv["k"] == "agg" and rv.get("ak") == "closure":
+                    r = (rv.get("path"), False)
+                if r is None or (found is not None and found != r):
+                    return None
+                found = r
+    return found
+
+
+def inline_closure_calls(j, bodies, types):
+    """`f(args)` where f is a closure of this crate (a local closure called directly, or a closure handed to an inlined
+    helper and called there through Fn/FnMut/FnOnce) is replaced by the closure's body."""
+    m = j.get("mir")
+    if not m:
+        return 0
+    n = 0
+    for bi in range(len(m["blocks"])):
+        if len(m["blocks"]) > MAX_BLOCKS:
+            break
+        b = m["blocks"][bi]
+        t = b.get("term")
+        if not t or t["k"] != "call" or b.get("cleanup") or t.get("target") is None:
+            continue
+        c = t.get("callee") or {}
+        if c.get("trait") not in ("std::ops::Fn", "std::ops::FnMut", "std::ops::FnOnce") or len(t["args"]) != 2:
+            continue
+        r = _closure_of_operand(j, types, t["args"][0])
+        if r is None or r[0] not in bodies or r[0] == j["path"]:
+            continue
+        cb = bodies[r[0]]
+        km = cb["mir"]
+        self_ty = types[km["locals"][1]["ty"]]
+        want_ref = self_ty.get("k") == "ref"
+        f = t["args"][0]
+        pre = []
+        if want_ref and not r[1]:
+            fpl = f.get("move") or f.get("copy")
+            tmp = len(m["locals"])
+            m["locals"].append({"ty": km["locals"][1]["ty"], "mut": True})
+            pre.append({"k": "assign", "place": {"l": tmp, "p": [], "ty": km["locals"][1]["ty"]},
+                        "rv": {"k": "ref", "mut": bool(self_ty.get("mut")), "bk": "Mut" if self_ty.get("mut") else "Shared", "place": fpl}, "line": t.get("line")})
+            f = {"move": {"l": tmp, "p": [], "ty": km["locals"][1]["ty"]}}
+        elif not want_ref and r[1]:
+            continue   # a by-value body called through a reference: not a shape rustc produces for local closures
+        tup = t["args"][1]
+        tpl = tup.get("move") or tup.get("copy")
+        nparams = km["arg_count"] - 1
+        args = [f]
+        if nparams and tpl is None:
+            continue
+        for i in range(nparams):
+            ty_i = km["locals"][2 + i]["ty"]
+            args.append({"move": {"l": tpl["l"], "p": tpl["p"] + [{"field": i, "name": str(i), "ty": ty_i}], "ty": ty_i}})
+        b["stmts"] = b.get("stmts", []) + pre
+        t2 = dict(t)
+        t2["args"] = args
+        b["term"] = t2
+        n += 1
+        _inline_one(j, bi, cb, "%s#c%d" % (r[0], n))
+        _CLOSURES_INLINED.add(r[0])
+    return n
+
+
+_CLOSURES_INLINED = set()
+
+
 def _renumber(j):
     """Put the blocks of a body into reverse post-order (cleanup/unreachable blocks last) so that block index order
     follows execution order again after inlined blocks were appended."""
@@ -423,6 +513,7 @@ def apply(d, baseline=None):
     for j in d["bodies"]:
         bodies.setdefault(j["path"], j)
     _OVERRIDDEN.clear()
+    _CLOSURES_INLINED.clear()
     for im in d.get("impls", []):
         tr = im.get("trait")
         if not tr:
@@ -433,9 +524,6 @@ def apply(d, baseline=None):
     helpers = {p for p, j in bodies.items() if p not in baseline and j.get("kind") in ("Fn", "AssocFn") and j.get("mir")}
     # a renamed/moved closure is not a helper; pyo3-generated wrappers are never called directly
     helpers = {p for p in helpers if "{closure" not in p and "__pymethod" not in p and "__pyfunction" not in p and "_PYO3" not in p}
-    if not helpers:
-        d["inlined"] = {}
-        return {}
     report = {}
     # callee-first order
     order = []
@@ -475,7 +563,8 @@ def apply(d, baseline=None):
                     _inline_one(j, bi, bodies[c], "%s#%d" % (c, n))
                     report.setdefault(c, []).append(j["path"])
                     changed = True
-        if n:
+        nc = inline_closure_calls(j, bodies, d["types"])
+        if n or nc:
             thread_jumps(j)
             _renumber(j)
         # calls left (recursion / size bound)
@@ -502,6 +591,32 @@ def apply(d, baseline=None):
     if ftypes:
         for j in d["bodies"]:
             refs(j.get("mir"))
+    # closures whose calls were inlined and that are handed to no remaining call are analysed in their callers only
+    ctypes = {}
+    for i, t in enumerate(d.get("types", [])):
+        if t.get("k") == "closure" and t.get("path") in _CLOSURES_INLINED:
+            ctypes[i] = t["path"]
+    for i, t in enumerate(d.get("types", [])):
+        if t.get("k") == "ref" and t.get("to") in ctypes:
+            ctypes[i] = ctypes[t["to"]]
+    escaping = set()
+    for j in d["bodies"]:
+        if not j.get("mir") or (j["path"] in helpers and uninlined.get(j["path"]) == 0 and j["path"] in report):
+            continue
+        for b in j["mir"]["blocks"]:
+            t = b.get("term")
+            if t and t["k"] == "call" and not b.get("cleanup"):
+                for a in t["args"]:
+                    pl = a.get("move") or a.get("copy")
+                    if pl and pl.get("ty") in ctypes:
+                        escaping.add(ctypes[pl["ty"]])
+                for ga in (t["callee"].get("args") or []):
+                    if ga.get("ty") in ctypes:
+                        escaping.add(ctypes[ga["ty"]])
+    for cp in _CLOSURES_INLINED - escaping:
+        if cp in bodies:
+            bodies[cp]["helper"] = True
+            bodies[cp]["inlined_everywhere"] = True
     d["inlined"] = {p: {"callers": sorted(set(report.get(p, []))), "everywhere": uninlined[p] == 0 and p in report} for p in helpers}
     for p in helpers:
         bodies[p]["helper"] = True
